@@ -611,7 +611,7 @@ impl Check for C14 {
         }
     }
     fn rule(&self) -> String {
-        "per case one in-process passage::start instance with generated max_packet_length (64 … 2^21-1), auth_cookie_expiry (30 s … 10^6 s), secret and timeout (1-2 s), and 6-19 concurrent client scenarios: a handshake frame of declared length M-1 / M / M+1 / 2M / 10000 / 10001 / 40 followed by a status request; a Transfer login presenting a correctly signed cookie whose age is inside or outside the configured expiry (margin 10 %), or signed with another secret; a misbehaving client (silent, one byte per 50 ms, stops after 0-4 login steps, garbage). Plus the bare Listener with a 300-900 ms connection timeout and a discovery that never completes (silent client, logged-in client). non-trivial = a frame within 1 of a configured maximum other than 10000, a cookie age between the configured and the default expiry, or a behaviour that outlives the timeout; distinct = distinct case".into()
+        "per case one passage instance - in-process passage::start, or (half of the cases) a child process that reads the same settings through Config::read from a configuration file (json/yaml/yml/toml, CONFIG_FILE or default path), the auth secret file and environment variables (default or custom ENV_PREFIX) with decoy values in the lower layers - with generated max_packet_length (64 … 2^21-1), auth_cookie_expiry (30 s … 10^6 s), secret and timeout (1-2 s), and 6-19 concurrent client scenarios: a handshake frame of declared length M-1 / M / M+1 / 2M / 10000 / 10001 / 40 followed by a status request; a Transfer login presenting a correctly signed cookie whose age is inside or outside the configured expiry (margin 10 %), or signed with another secret; the cookie the router itself issued presented at once or after a configured expiry of 1-3 s; a cookie that expires while the client stalls; over-long and aliased length prefixes; a misbehaving client (silent, one byte per 50 ms, stops after 0-4 login steps, garbage). Plus the bare Listener with a 300-900 ms connection timeout and a discovery that never completes (silent client, logged-in client). non-trivial = a frame within 1 of a configured maximum other than 10000, a cookie age between the configured and the default expiry, or a behaviour that outlives the timeout; distinct = distinct case".into()
     }
     fn assumptions(&self) -> Vec<String> {
         vec![
